@@ -63,6 +63,8 @@ func replayAny(id, path string) int {
 	var doc struct{ Layer string }
 	json.Unmarshal(data, &doc)
 	switch doc.Layer {
+	case "R-race":
+		return layerr.ReplayRace(path)
 	case "C":
 		return layerc.Replay(id, path)
 	case "D":
@@ -169,9 +171,9 @@ var registry = map[string]check{
 		components:  compR,
 	},
 	"C14": {
-		parts:  []part{{"runtime", layerr.C14, 32, 256}, {"compiled", layerc.C14, 16, 128}},
+		parts:  []part{{"runtime", layerr.C14, 32, 256}, {"compiled", layerc.C14, 16, 128}, {"race-supplement", layerr.C14Race, 4, 16}},
 		replay: replayAny, level: "exploration",
-		rule:        "cases = k<=6 iterators over <=3 term descriptions (iterators may be started from ONE shared Seq value) owned by m<=4 consumer threads; the seeded scheduler picks the running thread at every op boundary and at every effect point inside a step. Oracle (self-relative): each iterator's projection of the interleaved history equals the history of the same iterator consumed alone by the same ops; secondary: the interleaved history equals the reference's under the same choices. Non-trivial = >= 2 iterators, >= 2 thread switches, >= 2 effects; distinct = digest of (terms, ownership, ops, choices).",
+		rule:        "cases = k<=6 iterators over <=3 term descriptions (iterators may be started from ONE shared Seq value) owned by m<=4 consumer threads; the seeded scheduler picks the running thread at every op boundary and at every effect point inside a step. Oracle (self-relative): each iterator's projection of the interleaved history equals the history of the same iterator consumed alone by the same ops; secondary: the interleaved history equals the reference's under the same choices. Compiled level: the same on generated programs (instances of several generator functions). Supplement (runtime monitoring, flagged as such): the same terms — stateless Seq VALUES shared by all iterators, and Delay-rooted stateful ones — consumed on truly parallel goroutines in a binary built with -race; oracle = race detector silent and every sequence equal to its solo sequence. Non-trivial = >= 2 iterators, >= 2 thread switches, >= 2 effects; distinct = digest of (terms, ownership, ops, choices).",
 		assumptions: []string{"one goroutine runnable at a time (baton passing) is a faithful stand-in for interleavings at effect points; data races are the -race supplement's job"},
 		components:  mergeComp(compR, compC),
 	},
